@@ -10,7 +10,7 @@ prop = o["property"]
 mod = importlib.import_module("checks.%s" % prop.lower())
 ctx = Ctx(prop, "quick", 0, 0, 1, {})
 ctx.replaying = True
-Eng = getattr(mod, "Eng", None) or getattr(mod, "ENGINE")
+Eng = getattr(mod, os.environ.get("DBG_ENG", "Eng"), None) or getattr(mod, "ENGINE")
 eng = Eng(case["config"], ctx, props={prop})
 w = eng.world
 st = {"nw": 0, "nr": 0}
